@@ -19,8 +19,11 @@ DCV = "deep_clone_value"
 CELLS = [(REF, "value", "thread"), (LAZY, "value", "thread")]
 
 
+CELL_DCV = "thread::Thread::deep_clone_value_for_cell"
+
+
 def _is_dcv(name):
-    return name.endswith("::deep_clone_value")
+    return name.endswith("::deep_clone_value") or name.endswith(CELL_DCV)
 
 
 def _is_clone(name):
@@ -77,13 +80,20 @@ def cells(fb, rep, rule="E4a"):
                                   "%s stores into %s.%s a value that is not the result of deep_clone_value" % (b.id, adt, vfield),
                                   "%s:%s" % (b.file, line))
                     continue
-                # the clone's destination (receiver) is the cell's own thread
+                # the clone's destination (receiver) is the cell's own thread; a cell that may live in the global heap passes
+                # its own heap flag so that the value follows the cell (see E4e)
                 good = False
+                flagged = None
                 for c in _dcv_calls(b):
                     rs = flow.sources(b, c.args[0])
                     if ("field", adt, tfield) in rs:
                         good = True
-                if good:
+                        if c.res.endswith(CELL_DCV):
+                            flagged = ("field", adt, "in_global_heap") in flow.sources(b, c.args[1])
+                if good and flagged is False:
+                    rep.violation(R, "cell-store-wrong-flag|%s|%s" % (b.id, adt),
+                                  "%s clones for a cell with a heap flag that is not the cell's own in_global_heap" % b.id, "%s:%s" % (b.file, line))
+                elif good:
                     rep.ok(R, "%s: %s.%s <- deep_clone_value(receiver = cell.%s)" % (b.id, adt.rsplit("::", 1)[1], vfield, tfield))
                 else:
                     rep.violation(R, "cell-store-wrong-heap|%s|%s" % (b.id, adt),
@@ -465,20 +475,25 @@ def userdata_clones(fb, rep):
 
 
 def cloner_heap_pairing(fb, rep):
-    """E4e: a Cloner pairs a thread with *that thread's own heap*.
+    """E4e: a mutable cell lives in the heap its stores go to.
 
     `Userdata::deep_clone` of the mutable cells (`Reference`, `Lazy`) allocates the copy in `cloner.gc()` and makes
-    `cloner.thread()` its owner; every later store into the cell (`reference::set`, `lazy::force`) clones the new value into
-    the owner's heap (E4a).  That is only sound when the cell lives in its owner's heap or a younger one.  A cloner built
-    with a thread and *another* heap (the global, generation-0 heap) produces cells that live in the old heap but own a
-    younger one: the first store puts a young pointer into an old object, which the young heap's collector never
-    traces (`Gc::mark` skips objects of ancestor generations) — the stored value is freed while reachable."""
+    `cloner.thread()` its owner; every later store into the cell clones the new value into the owner's heap (E4a).  That is
+    only sound when the cell lives in its owner's heap or a younger one.  A cloner that pairs a thread with *another* heap (the
+    global, generation-0 heap: module promotion, set_global) produces cells that live in the old heap but own a younger one;
+    the first store would put a young pointer into an old object, which the young heap's collector never traces (`Gc::mark`
+    skips ancestor generations).  Discipline (after the repair of finding 10): (1) a Cloner is built either with the thread's
+    own context heap or with the global heap; (2) every cell built by a `Userdata::deep_clone` override records whether the
+    destination heap is the root generation (`in_global_heap = cloner.gc().generation().is_root()`), fresh cells are `false`;
+    (3) the function that clones for a cell sends the value to the global heap exactly on the `in_global_heap` edge and to the
+    owner's heap otherwise (E4a checks that each store passes the cell's own flag)."""
     R = "E4e"
-    rep.rule(R, "every Cloner allocates in the heap of the thread it re-owns cells to")
+    rep.rule(R, "a mutable cell records whether it lives in the global heap and its stores follow it there")
     own = {("field", "gluon_vm::thread::Context", "gc"), ("field", "gluon_vm::thread::ExecuteContext", "gc")}
     pool = [b for b in fb.bodies.values() if b.kind != "coroutine_post"] + list(fb.pre.values())
     seen = set()
     n = 0
+    foreign = []
     for b in pool:
         for c in b.calls():
             if not c.res.endswith("value::Cloner::<'t>::new") or len(c.args) < 2:
@@ -491,12 +506,69 @@ def cloner_heap_pairing(fb, rep):
             srcs = flow.sources(b, c.args[1], depth=14)
             if srcs & own:
                 rep.ok(R, "%s: Cloner::new(thread, &mut <that thread's context>.gc)" % root)
+            elif flow.has_call(srcs, lambda x: x.endswith("Thread::global_env")):
+                foreign.append((root, b, c))
             else:
-                via = "the global heap (GlobalVmState.gc)" if flow.has_call(srcs, lambda x: x.endswith("Thread::global_env")) else "a heap that is not the thread's context heap"
-                rep.violation(R, "cloner-foreign-heap|%s" % root,
-                              "%s builds a Cloner that allocates in %s but re-owns copied Reference/Lazy cells to the thread: a later store or force puts a pointer "
-                              "to the thread's (younger) heap into the older heap, which the thread's collector never traces" % (root, via), c.where())
+                rep.violation(R, "cloner-unknown-heap|%s" % root, "%s builds a Cloner with a heap that is neither the thread's context heap nor the global heap" % root, c.where())
     rep.floor(R, "Cloner constructions", n, 4)
+    # (2) cells know where they live
+    cells_ok = True
+    n_cells = 0
+    for adt, vfield, tfield in CELLS:
+        a = fb.adts.get(adt)
+        names = [f["name"] for f in a["variants"][0]["fields"]] if a else []
+        if "in_global_heap" not in names:
+            cells_ok = False
+            rep.violation(R, "cell-has-no-heap-flag|%s" % adt, "%s does not record whether it lives in the global heap" % adt, "%s:%s" % (a["file"], a["line"]) if a else "")
+            continue
+        fi = names.index("in_global_heap")
+        for b in fb.bodies.values():
+            if b.crate.name != "gluon_vm":
+                continue
+            for i, j, pl, rv, ln in b.assigns():
+                if rv[0] == "agg" and rv[1][0] == "adt" and rv[1][1] == adt:
+                    n_cells += 1
+                    fs = flow.sources(b, rv[2][fi])
+                    in_clone = b.get("impl_trait") == "gluon_vm::value::Userdata" and b.get("name") == "deep_clone"
+                    if in_clone:
+                        if flow.has_call(fs, lambda x: x.endswith("Generation::is_root")) and flow.has_call(fs, lambda x: x.endswith("Cloner::<'t>::gc")):
+                            rep.ok(R, "%s: in_global_heap = cloner.gc().generation().is_root()" % b.id)
+                        else:
+                            cells_ok = False
+                            rep.violation(R, "cell-flag-not-from-cloner|%s" % adt, "%s builds the copied cell with a heap flag that is not `cloner.gc().generation().is_root()`" % b.id, "%s:%s" % (b.file, ln))
+                    else:
+                        if ("const", 0) in fs and not any(x[0] == "call" for x in fs):
+                            rep.ok(R, "%s: a fresh %s starts in its creator's heap (in_global_heap = false)" % (b.id, adt.rsplit("::", 1)[1]))
+                        else:
+                            cells_ok = False
+                            rep.violation(R, "fresh-cell-flag|%s|%s" % (adt, b.id), "%s creates a %s whose in_global_heap is not the constant false" % (b.id, adt), "%s:%s" % (b.file, ln))
+    rep.floor(R, "constructions of Reference / Lazy", n_cells, 5)
+    # (3) the cell clone function routes on the flag
+    f = fb.body("gluon_vm::" + CELL_DCV)
+    routed = False
+    if f is None:
+        rep.violation(R, "no-cell-clone-function", "there is no function that sends a cell's new value to the heap the cell lives in (Thread::deep_clone_value_for_cell)", "")
+    else:
+        news = [c for c in f.calls() if c.res.endswith("value::Cloner::<'t>::new")]
+        plain = [c for c in f.calls() if c.res.endswith("::deep_clone_value")]
+        for bb, srcs, true_t, false_t in flow.bool_switches(f):
+            if ("arg", 2) in srcs and not any(x[0] == "call" for x in srcs):
+                g_ok = news and all(flow.only_via_edge(f, c.bb, (bb, true_t)) and flow.has_call(flow.sources(f, c.args[1], depth=14), lambda x: x.endswith("Thread::global_env")) for c in news)
+                p_ok = plain and all(flow.only_via_edge(f, c.bb, (bb, false_t)) for c in plain)
+                routed = bool(g_ok and p_ok)
+        if routed:
+            rep.ok(R, "deep_clone_value_for_cell: in_global_heap -> Cloner::new(self, global heap); otherwise -> deep_clone_value (owner's heap)")
+        else:
+            rep.violation(R, "cell-clone-not-routed", "Thread::deep_clone_value_for_cell does not send the value to the global heap exactly when in_global_heap is set", f.where())
+    for root, b, c in foreign:
+        if root.endswith(CELL_DCV.split("::", 1)[1]) or root == "gluon_vm::" + CELL_DCV:
+            continue
+        if cells_ok and routed:
+            rep.ok(R, "%s: promotion into the global heap; the cells it copies record in_global_heap and their stores follow them" % root)
+        else:
+            rep.violation(R, "cloner-foreign-heap|%s" % root,
+                          "%s builds a Cloner that allocates in the global heap (GlobalVmState.gc) but re-owns copied Reference/Lazy cells to the thread: a later store or force puts a pointer "
+                          "to the thread's (younger) heap into the older heap, which the thread's collector never traces" % root, c.where())
 
 
 def cloner_helpers(fb, rep):
